@@ -76,11 +76,11 @@ Definition case_has_stmt (cv : case_t) : bool :=
   | _ => negb (is_nil (snd cv))
   end.
 
-(* Case: every case has a first token, and (unless there is no case at all) the END keyword is a
-   direct child of the Case (it is not when a later grouping pass has moved it into a sub-group:
-   Where, Identifier `x as end`, `x::end`, IdentifierList `a, end` ...) *)
+(* Case: every case has a first token.  (Until the fix of finding C07-AL-1 also: unless there is no case at all the
+   END keyword is a direct child of the Case -- it is not when a later grouping pass has moved it into a sub-group:
+   Where, Identifier `x as end`, `x::end`, IdentifierList `a, end` ...; the filter now leaves such an END alone.) *)
 Definition acase_safe (l : list node) : bool :=
-  forallb case_has_stmt (aget_cases l) && (is_nil (aget_cases l) || has_end l).
+  forallb case_has_stmt (aget_cases l).
 
 (* exactly the groups the walk visits are inspected: nothing below a Case, nothing below a
    Parenthesis that is no sub-query *)
